@@ -235,12 +235,12 @@ func Props() []kit.Runner {
 	return []kit.Runner{
 		kit.Prop[DirectCase]{ID: "C02", Name: "direct",
 			Rule:  "[exported RouteAuthenticator(s) and Context.Authorize with explicit scheme orders, every permutation inside every alternative] " + ruleText,
-			Quick: 10000, Thorough: 60000, Gen: GenDirect, Check: CheckDirect, Classify: ClassifyDirect, Enumerate: EnumerateDirect},
+			Quick: 8000, Thorough: 40000, Gen: GenDirect, Check: CheckDirect, Classify: ClassifyDirect, Enumerate: EnumerateDirect},
 		kit.Prop[StackCase]{ID: "C02", Name: "stack",
 			Rule:  "[spec -> untyped API -> Context.APIHandler, 1-10 requests per API with independent damage: missing required parameter, bad Content-Type, bad Accept, unparsable body] " + ruleText,
-			Quick: 1200, Thorough: 5000, Gen: GenStack, Check: CheckStack, Classify: ClassifyStack},
+			Quick: 1000, Thorough: 4000, Gen: GenStack, Check: CheckStack, Classify: ClassifyStack},
 		kit.Prop[StackCase]{ID: "C02", Name: "typed",
 			Rule:  "[spec -> own RoutableAPI -> generated-server style handler (Context.Authorize, BindValidRequest, SecurityPrincipalFrom/SecurityScopesFrom) plus Context.Authorize on the looked-up route under every explicit scheme order] " + ruleText,
-			Quick: 1000, Thorough: 4000, Gen: GenStack, Check: CheckTyped, Classify: ClassifyStack},
+			Quick: 800, Thorough: 3000, Gen: GenStack, Check: CheckTyped, Classify: ClassifyStack},
 	}
 }
